@@ -476,6 +476,7 @@ func rulesC13(c *Ctx) {
 	rulesC13Round2(c)
 	c13Round3(c)
 	c13Round4(c, c.P.BuildIndex())
+	c13Round5(c)
 	const rule = "C13.commitknown"
 	const cwh = "storage/mkvs.(*tree).commitWithHooks"
 	if fn := c.needFn(rule, cwh); fn != nil {
